@@ -198,6 +198,9 @@ func runC02(p *core.Program, r *core.Report) {
 	name := core.FuncName(g.fn)
 	checkDrawRoutines(p, r, "R2.0", "R2.0", "R2.0")
 	checkAlphabetProvenance(p, r, "R2.1")
+	// "the recipe's alphabet": allowed ∪ required minus excluded, consistently in the list drawn
+	// from and in the sets the filter and the entropy use (= C03 R3.1-R3.3 re-run)
+	r.Borrow("R2.1", func() { checkAlphabetBuilder(p, r) })
 	checkDrawShape(p, r, g, "R2.2", "R2.3")
 	checkWholeCandidateRejection(p, r, g, "R2.4")
 	checkFilterAllOf(p, r, g, "R2.5")
@@ -531,6 +534,29 @@ func checkWholeCandidateRejection(p *core.Program, r *core.Report, g *charGen, r
 			}
 		}
 	}
+	// a candidate is always drawn completely: the position loop is left only through its
+	// own exit test (no break / continue-outer / return inside it), so whether a candidate is
+	// kept is decided by the filter on the whole string and by nothing else
+	var posLoop *core.Loop
+	if g.inner != nil {
+		posLoop = g.inner.Loop
+	} else if g.innerRange != nil {
+		posLoop = g.innerRange.Loop
+	}
+	if posLoop != nil {
+		for b := range posLoop.Blocks {
+			if b == posLoop.Header {
+				continue
+			}
+			for _, sb := range b.Succs {
+				if !posLoop.Blocks[sb] {
+					at := b.Instrs[len(b.Instrs)-1]
+					r.Fail(rule, name, "every candidate is drawn to its full length (the position loop has no early exit)", p.InstrPos(at),
+						"a candidate abandoned part-way is rejected by something other than the requirement filter on the whole string: valid strings can lose probability")
+				}
+			}
+		}
+	}
 	// the non-nil return
 	for _, ret := range core.Returns(g.fn) {
 		if core.IsNilConst(ret.Results[0]) {
@@ -584,6 +610,12 @@ func checkWholeCandidateRejection(p *core.Program, r *core.Report, g *charGen, r
 		if iff, ok := filt.Block().Instrs[len(filt.Block().Instrs)-1].(*ssa.If); ok && iff.Cond == ssa.Value(filt) {
 			fb := filt.Block().Succs[1]
 			r.Check(g.retry != nil && g.retry.Blocks[fb], rule, name, "a rejected candidate leads to the next attempt", p.InstrPos(iff), "")
+			// and nothing else does: every way round the retry loop passes the filter
+			if g.retry != nil {
+				for _, la := range g.retry.Latch {
+					r.Check(filt.Block().Dominates(la), rule, name, "the next attempt is started only by the filter rejecting the candidate", p.InstrPos(la.Instrs[len(la.Instrs)-1]), "")
+				}
+			}
 		}
 	}
 }
